@@ -55,11 +55,17 @@ def main():
         meta["baseline_with_change"] = {"rc": rc, "passed": passed, "failed": failed}
         demo = demos[0]
         tname = os.path.basename(demo)[:-3]
+        # a change that only manifests under a non-default feature set: FEATURES.txt holds the cargo flags of the demo
+        flags = []
+        ff = os.path.join(out, "FEATURES.txt")
+        if os.path.exists(ff):
+            flags = open(ff).read().split()
+            meta["demo_flags"] = " ".join(flags)
         shutil.copy(demo, os.path.join(wt, "tests", os.path.basename(demo)))
-        rc1, o1 = run(["timeout", "600", "cargo", "test", "--offline", "--test", tname], cwd=wt, env=env)
+        rc1, o1 = run(["timeout", "600", "cargo", "test", "--offline", "--test", tname] + flags, cwd=wt, env=env)
         meta["demo_with_change"] = {"rc": rc1, "tail": o1[-600:]}
         run(["git", "checkout", "--", "src"], cwd=wt)
-        rc2, o2 = run(["timeout", "600", "cargo", "test", "--offline", "--test", tname], cwd=wt, env=env)
+        rc2, o2 = run(["timeout", "600", "cargo", "test", "--offline", "--test", tname] + flags, cwd=wt, env=env)
         meta["demo_without_change"] = {"rc": rc2, "tail": o2[-300:]}
         meta["confirmed"] = bool(rc == 0 and failed == 0 and passed >= 55 and rc1 != 0 and rc2 == 0)
         run(["git", "apply", patch], cwd=wt)
@@ -69,7 +75,7 @@ def main():
         for i in range(1, 19):
             pid = "C%02d" % i
             e2 = dict(os.environ, ABSY_REPO=wt, ABSY_EVIDENCE_DIR=ev)
-            rc3, o3 = run([os.path.join(HERE, "check"), pid, "--tier", "quick"], env=e2)
+            rc3, o3 = run([os.path.join(HERE, "check"), pid, "--tier", "thorough" if flags else "quick"], env=e2)
             keys = []
             for line in o3.splitlines():
                 if line.startswith("VIOLATION"):
